@@ -143,6 +143,42 @@ TARGETED = [
 ]
 
 
+def shared_reader_sequences(sh, fa, SRE, rng):
+    """One parsed reader schema object used to read data of several writer versions in turn:
+    every read is judged on its own writer schema (nothing learnt from an earlier pair may stick)."""
+    import itertools
+    reader = {"type": "record", "name": "User", "namespace": "acct", "fields": [
+        {"name": "id", "type": "long"}, {"name": "email", "type": "string", "default": "n/a"},
+        {"name": "score", "type": "double", "default": 0.0}, {"name": "tags", "type": {"type": "array", "items": "string"}, "default": []},
+        {"name": "level", "type": {"type": "enum", "name": "Level", "symbols": ["LO", "HI"], "default": "LO"}, "default": "LO"}]}
+    writers = [
+        ({"type": "record", "name": "User", "namespace": "acct", "fields": [{"name": "id", "type": "long"}]}, {"id": 1}),
+        ({"type": "record", "name": "User", "namespace": "acct", "fields": [{"name": "id", "type": "int"}, {"name": "email", "type": "string"}]}, {"id": 2, "email": "a@b"}),
+        ({"type": "record", "name": "User", "namespace": "acct", "fields": [{"name": "score", "type": "float"}, {"name": "id", "type": "long"}, {"name": "gone", "type": "bytes"}]},
+         {"score": 1.5, "id": 3, "gone": b"x"}),
+        ({"type": "record", "name": "User", "namespace": "acct", "fields": [{"name": "id", "type": "long"}, {"name": "level", "type": {"type": "enum", "name": "Level", "symbols": ["LO", "MID", "HI"]}},
+                                                                            {"name": "tags", "type": {"type": "array", "items": "string"}}]}, {"id": 4, "level": "MID", "tags": ["t"]}),
+    ]
+    rnode, _e = RS.build(reader)
+    prepared = []
+    for wjs, d in writers:
+        wnode, _e2 = RS.build(wjs)
+        tree = RB.decode_all(wnode, RB.encode(wnode, RC.from_datum(wnode, d)))
+        prepared.append((wjs, RB.encode(wnode, tree), RR.resolve(wnode, rnode, tree)))
+    for order in itertools.permutations(range(len(writers)), 3):
+        R = fa.parse_schema(copy.deepcopy(reader))
+        for k in order:
+            wjs, data, want = prepared[k]
+            st, got = guard(fa.schemaless_reader, io.BytesIO(data), copy.deepcopy(wjs), R)
+            if not judge(sh, SRE, st, got, "value", want, {"writer": wjs, "reader": reader, "datum": writers[k][1], "steps": ["shared_reader", list(order)]}, "schemaless_reader (parsed reader schema reused)"):
+                return
+            blob, _b = RK.write(wjs, [data], [1])
+            st, got = guard(lambda: list(fa.reader(io.BytesIO(blob), reader_schema=R)))
+            if not judge(sh, SRE, st, got, "value", [want], {"writer": wjs, "reader": reader, "datum": writers[k][1], "steps": ["shared_reader", list(order)]}, "reader (parsed reader schema reused)"):
+                return
+        sh.count("shared_reader_sequences")
+
+
 def one_case(sh, fa, SRE, rng, case, drop_bytes_default_fields=False, reader_given=None):
     wjs, wnode, d = case["schema"], case["node"], case["datum"]
     ev = Evolver(rng)
@@ -300,6 +336,7 @@ def run_shard(spec):
             for k in range(4):
                 sh.run_case(one_case, sh, fa, SRE, random.Random(k), {"schema": wjs, "node": wnode, "datum": d, "features": set()}, False, rjs)
             sh.count("hand_made_evolutions")
+        sh.run_case(shared_reader_sequences, sh, fa, SRE, rng)
     i = 0
     while i < spec["n"] and not sh.out_of_time():
         i += 1
